@@ -26,5 +26,7 @@ func init() {
 		rules.SharedSets(p, r, "C07-f")
 		rules.KeyAndMatcherNormaliseAlike(p, r, "C07-b-norm")
 		rules.RepresentativePairExclusionTable(p, r, "C07-g")
+		rules.ExposureFlagNonInterference(p, r, "C07-fold")
+		rules.NilNamespaceSelectorMatchesByKey(p, r, "C07-b-nil")
 	})
 }
